@@ -47,7 +47,12 @@ def run(tier):
     for t in ctasks:
         t['canonical'] = True
         t['ends'] = ['le', 'be']
-    results = X.run_tasks(tasks + ctasks)
+    # translator validation (Serval-style): the IR executor on fully concrete inputs against the natively compiled code
+    vtasks = build_tasks(chunks, tier, ftier, query='q_engine_validation', ends=('le', 'be'), cap=2 if tier == 'quick' else 6, tag='engine-validation')
+    for i, t in enumerate(vtasks):
+        t['seed'] = i + int(os.environ.get('VERIF_SEED', '0') or 0)
+        t['desc']['symbolic'] = 'nothing: concrete differential run of the executor against the native build'
+    results = X.run_tasks(tasks + ctasks + vtasks)
     from . import p_c05
 
     def confirm(chunk, shape, e, viol, L_):
